@@ -148,6 +148,16 @@ def run_scenario(ctx, events, tids, counter, scn, files, roles):
         # write is not ITS output (it keeps the marker), a file it writes replaces the old one
         for dom in doms:
             (outdir / f"suit_installed_envelopes_{dom}_merged.hex").write_bytes(STALE)
+        if base % 3 != 1 and scn.get("fault", "none") == "none":
+            # ... VALID files (only where the judged invocation itself is expected to write: a refusal leaves an earlier valid
+            # file alone, which is not ITS output): the same envelopes stored for another base address (the storage area was moved)
+            core.setup_repo_path()
+            from suit_generator.cmd_image import ImageCreator as _IC
+            try:
+                _IC.create_files_for_boot([str(f) for f in files], str(outdir), (base + 0x2000) & 0xFFFFFFFF, str(cfg) if cfg else None, soc)
+            except BaseException as e:
+                if isinstance(e, (KeyboardInterrupt, MemoryError)):
+                    raise
     if via == "lib":
         core.setup_repo_path()
         from suit_generator.cmd_image import ImageCreator
